@@ -10,8 +10,27 @@ THEOREMS = [
     {"name": "C12_no_completion_while_items_active", "strength": "F",
      "text": "an item event with another item still active never completes the task (sweep of the generated task table)"},
     {"name": "C12_no_items_offered_when_held", "strength": "F", "text": "nothing offered while pausing/paused/canceling/canceled"},
-    {"name": "(tested, not proved) item bookkeeping across calls: each item offered at most once per execution, task "
-             "succeeds iff all items succeed, the window holds in every reachable state", "strength": "T", "text": "monitor c12"},
+    {"name": "C12b_item_link (props/C12b.v; model/ProviderSysItems.v, proofs/SysItemsProofs.v)", "strength": "P",
+     "text": "the provider protocol WITH items (in-flight keys (task, route, item); poll + per-item acknowledgement; item "
+             "reports carrying the provider's accumulated results), for every evaluator, spec, graph and every history whose "
+             "two computed flags stay false (no fault; no item table wiped under a running item -- how finding D1 shows up): "
+             "an item is in flight iff its slot is running in the staged table; every table is a prefix of set slots followed "
+             "by unset ones. The record-level half (task record active) is not proved"},
+    {"name": "C12b_window_after_poll / C12b_window_inside_poll / C12b_window_between_polls", "strength": "F",
+     "text": "WINDOW: after every API call of every poll the number of active items of each offered with-items task is at most "
+             "max(k,1) for the integer concurrency k rendered into that offer, and no other step increases it"},
+    {"name": "C12b_offers_in_index_order / C12b_once_and_in_order", "strength": "F",
+     "text": "ONCE, IN ORDER: a poll offers the consecutive indices starting at the number of slots ever set; across polls of "
+             "one execution (the staged entry keeps its table) every offered index is greater than all earlier ones"},
+    {"name": "C12b_no_items_offered_when_held / C12b_empty_list_nothing_in_flight", "strength": "F",
+     "text": "HELD: after a pause or cancel request a poll offers nothing and changes nothing; an empty list puts nothing in flight"},
+    {"name": "witnesses in Module C12bExamples", "strength": "R",
+     "text": "'never completes while an item is in flight' / 'succeeds iff all succeed' is false for an items expression whose "
+             "length changes between polls (it reads task_status; replayed on the engine) -- weakest hypothesis: the item "
+             "count is stable while the entry has a table; D1 wipes the table under running items; a retry re-offers items on "
+             "the same record (once per table, not per record); D24 leaves the workflow canceling forever"},
+    {"name": "(tested, not proved) drain before complete and succeeds iff all items succeed under stable item counts; result "
+             "order; all n offered", "strength": "T", "text": "monitor c12"},
 ]
 TRUSTED_BASE = common.TRUSTED_BASE_COMMON
 ASSUMPTIONS = ["the window theorems are about choose_items, the model of _evaluate_task_actions, applied to the recorded item "
